@@ -2,6 +2,7 @@
 
 from __future__ import annotations
 
+import datetime as _dt
 import itertools
 import math
 import re
@@ -228,9 +229,17 @@ def run_containers(task, seed):
                ("list-of-junk", lambda v: [1, "x", None, ("a",)], False),
                ("bytes-keys", lambda v: {b"Retry-After": v}, False),
                ("nested", lambda v: {"Retry-After": {"Retry-After": v}}, False)]
-    for (sname, mk, must_find), v, where in itertools.product(
-            shapes, values, ["headers", "response", "response+empty-dict", "response+empty-list"]):
-        e = Exc429("x")
+    from redress.errors import RateLimitError
+
+    class MarkerOnly(RateLimitError):
+        """RATE_LIMIT through the marker type alone: no numeric status anywhere."""
+
+    for (sname, mk, must_find), v, where, exc_type in itertools.product(
+            shapes, values, ["headers", "response", "response+empty-dict", "response+empty-list"],
+            [Exc429, MarkerOnly]):
+        if exc_type is MarkerOnly and where not in ("headers", "response"):
+            continue
+        e = exc_type("x")
         if where == "headers":
             e.headers = mk(v)
         else:
@@ -242,7 +251,7 @@ def run_containers(task, seed):
             elif where == "response+empty-list":
                 e.headers = []
         res["execs"] += 1
-        case = f"{sname} {where} value {show(v)}"
+        case = f"{sname} {where} value {show(v)}" + (" (marker-only exception)" if exc_type is MarkerOnly else "")
         res["nontrivial"].add(hash(case))
         if must_find and isinstance(v, (str, int)) and not isinstance(v, bool) and v in ("120", 120):
             exp = ("exact", 120.0)
@@ -375,19 +384,29 @@ def run_end_to_end(task, seed):
         res["execs"] += 1
         case = f"hint={h!r} jitter={jit} draw={fr} deadline={dl} async={is_async} attempt_timeout={at}"
         ckw = {}
+        assign_deadline = dl is not None and bs == "fine"
+        if assign_deadline:
+            # the deadline is configured by attribute assignment after construction
+            kw = dict(kw, deadline_s=7.0)
         if bs is not None:
             case += f" before_sleep={bs}"
             ckw["before_sleep"] = before_sleep
         res["nontrivial"].add(hash(case))
         try:
             if is_async:
-                co = AsyncRetry(**kw).call(aop, sleeper=use_sleeper, **ckw)
+                pol = AsyncRetry(**kw)
+                if assign_deadline:
+                    pol.deadline = _dt.timedelta(seconds=dl)
+                co = pol.call(aop, sleeper=use_sleeper, **ckw)
                 try:
                     co.send(None)
                 except StopIteration:
                     pass
             else:
-                Retry(**kw).call(op, sleeper=sleeper, **ckw)
+                pol = Retry(**kw)
+                if assign_deadline:
+                    pol.deadline = _dt.timedelta(seconds=dl)
+                pol.call(op, sleeper=sleeper, **ckw)
         except Exc429:
             pass
         except Exception as ex:  # noqa: BLE001
